@@ -119,10 +119,14 @@ pub enum QueryPlan {
         decoded: TypedBufferRef,
     },
     /// Determines what dictionary index a string constant corresponds to.
+    /// `mode` says what to return for a constant that is not in the (sorted) dictionary:
+    /// 0 = -1 (for = and <>), 1 = the index of the first larger entry (for `col < c`, `col >= c`),
+    /// 2 = the index of the last smaller entry, possibly -1 (for `col <= c`, `col > c`).
     InverseDictLookup {
         offset_len: BufferRef<u64>,
         backing_store: BufferRef<u8>,
         constant: BufferRef<Scalar<&'static str>>,
+        mode: u8,
         #[output]
         decoded: BufferRef<Scalar<i64>>,
     },
@@ -1355,10 +1359,16 @@ impl QueryPlan {
                             panic!("Can't encode {:?}", plan_lhs)
                         }
                     } else if type_rhs.decoded == BasicType::String || type_rhs.decoded == BasicType::NullableString {
+                        // constant OP column
+                        let mode = match function {
+                            GT | LTE => 1,
+                            LT | GTE => 2,
+                            _ => 0,
+                        };
                         type_rhs
                             .codec
                             .clone()
-                            .encode_str(plan_lhs.scalar_str()?, planner)
+                            .encode_str(plan_lhs.scalar_str()?, mode, planner)
                             .into()
                     } else {
                         panic!("Can't elide decode on {:?}", plan_rhs)
@@ -1382,10 +1392,16 @@ impl QueryPlan {
                             panic!("Can't encode {:?}", plan_rhs)
                         }
                     } else if type_lhs.decoded == BasicType::String || type_lhs.decoded == BasicType::NullableString {
+                        // column OP constant
+                        let mode = match function {
+                            LT | GTE => 1,
+                            LTE | GT => 2,
+                            _ => 0,
+                        };
                         type_lhs
                             .codec
                             .clone()
-                            .encode_str(plan_rhs.scalar_str()?, planner)
+                            .encode_str(plan_rhs.scalar_str()?, mode, planner)
                             .into()
                     } else {
                         panic!("Can't elide decode on {:?}", type_lhs);
@@ -2055,8 +2071,9 @@ pub(super) fn prepare<'a>(
             offset_len,
             backing_store,
             constant,
+            mode,
             decoded,
-        } => operator::inverse_dict_lookup(offset_len, backing_store, constant, decoded),
+        } => operator::inverse_dict_lookup(offset_len, backing_store, constant, mode, decoded),
         QueryPlan::Cast { input, casted } => operator::type_conversion(input, casted)?,
         QueryPlan::DeltaDecode {
             plan,
